@@ -41,6 +41,14 @@ pub fn hex(b: &[u8]) -> String {
     s
 }
 
+pub fn hexo(b: &[u8]) -> String {
+    if b.is_empty() {
+        "-".to_owned()
+    } else {
+        hex(b)
+    }
+}
+
 fn run_case(line: &str) -> String {
     let mut it = line.split(' ');
     let kind = it.next().unwrap_or("");
@@ -63,6 +71,10 @@ fn main() {
     if args.len() >= 2 && args[1] == "--c09-child" {
         // hidden mode of the C09 check: see c09.rs
         return c09::child_main(&args[2..]);
+    }
+    if args.len() == 6 && args[1] == "--c08-lock" {
+        // hidden mode of the C08 check: see c06.rs
+        std::process::exit(c06::lock_child(&args[2..]));
     }
     // hidden modes: C19 stress runs (sanity test of the runtime assumptions)
     if args.len() == 6 && args[1] == "--c19-stress" {
